@@ -120,9 +120,12 @@ def r2_evolvers_do_not_escape(ctx):
                         ctx.ob("C04.R2", f"{rel}::{cls.name}.{m.name}::{P.un(par)[:80]}", rel, n.lineno, False, "a mutable evolver of the delegate is handed to something other than the Transient constructor")
                     elif isinstance(par, ast.Call):
                         ctx.ob("C04.R2", f"{rel}::{cls.name}.{m.name}::{P.un(par)}", rel, n.lineno, True, "evolver goes straight into the transient")
-            for name, origin in names.items():
-                bad = None
-                for u in ast.walk(m):
+            tree_ = ctx.py(rel)
+
+            def escapes(func, name, depth=0):
+                """The use through which `name` leaves `func`, or None.  Handing it to a private helper of
+                the same module is no escape if the helper's parameter stays local in turn."""
+                for u in ast.walk(func):
                     if isinstance(u, ast.Name) and u.id == name and isinstance(u.ctx, ast.Load):
                         par = P.parent(u)
                         if isinstance(par, ast.Attribute) and par.value is u:
@@ -131,7 +134,19 @@ def r2_evolvers_do_not_escape(ctx):
                             continue
                         if isinstance(par, ast.Compare):
                             continue  # k in m
-                        bad = par
+                        if isinstance(par, ast.Call) and u in par.args and isinstance(par.func, ast.Name) and par.func.id.startswith("_") and depth < 2:
+                            h = P.find_def(tree_, par.func.id)
+                            pos = par.args.index(u)
+                            if h is not None and isinstance(h, P.FUNC) and pos < len(h.args.args) and not any(isinstance(a, ast.Starred) for a in par.args):
+                                inner = escapes(h, h.args.args[pos].arg, depth + 1)
+                                if inner is None:
+                                    continue
+                                return inner
+                        return par
+                return None
+
+            for name, origin in names.items():
+                bad = escapes(m, name)
                 ok = bad is None
                 ctx.ob("C04.R2", f"{rel}::{cls.name}.{m.name}::evolver `{name}` stays local", rel, origin.lineno, ok,
                        "" if ok else f"the evolver `{name}` escapes through `{P.un(bad)[:80]}`: later mutation through it would be visible in a value already handed out")
